@@ -133,9 +133,9 @@ pub fn run(reg: &dyn Registry, ctx: &Ctx) -> Outcome {
         }
     }
     // long runs: many wraps of the 1024-step cycle
-    let long_words = if thorough { 1 << 20 } else { 1 << 16 };
+    let long_words = if thorough { 1 << 24 } else { 1 << 21 };
     let mut long_seeds = vec![alphabet::zero(len), alphabet::ones(len)];
-    long_seeds.extend(alphabet::w1(len).into_iter().step_by(4));
+    long_seeds.extend(alphabet::w1(len).into_iter().step_by(if thorough { 4 } else { 16 }));
     long_seeds.extend(chain_seeds(ty, ctx.seed ^ 0x10, 32));
     let res: Vec<_> = long_seeds.par_iter().map(|s| compare_rng(ty, s, long_words, None)).collect();
     ctx.add("long_seeds", long_seeds.len() as u64);
@@ -160,6 +160,23 @@ pub fn run(reg: &dyn Registry, ctx: &Ctx) -> Outcome {
             }
         }
     }
+    // rare reachable events found on the reference model (two equal successive words, a zero word, four
+    // words with equal low bytes, ...): lock-step through each of them
+    {
+        let (evs, words) = crate::rare::events_for(crate::rare::Kind::Hc128, ctx.seed, thorough);
+        ctx.set("rare_event_search_words", words);
+        ctx.set("rare_events_visited", evs.len() as u64);
+        let res: Vec<_> = evs.par_iter().map(|e| (compare_rng(ty, &e.seed, e.word_index as usize + 80, None), e)).collect();
+        for (r, e) in res {
+            match r {
+                Ok(n) => ctx.add("words_compared", n),
+                Err((what, replay)) => ctx.violation("C02:stream-event", &format!("Hc128Rng: at a stream position with {} ({}): {}", e.what, crate::rare::describe(e), what), replay),
+            }
+        }
+        if let Some(e) = evs.first() {
+            ctx.sample(crate::rare::describe(e));
+        }
+    }
     let steps_cov = cov.steps.iter().filter(|&&b| b).count() as u64;
     ctx.set("distinct_phase_step_indices", steps_cov);
     ctx.set("h1_table_indices_hit", cov.h_lo.iter().filter(|&&b| b).count() as u64);
@@ -178,7 +195,7 @@ pub fn run(reg: &dyn Registry, ctx: &Ctx) -> Outcome {
             traces: "states",
             evaluations: "states",
             distinct: "seeds",
-            rule: "seeds = Z, O, every single bit and every pair of bits of key/IV (W1, W2), walking zeros, byte probes, dense chained seeds (all distinct by construction); every seed is compared with the specification model for 2200 keystream words (> 2 table cycles) through next_u32 and for 8 blocks through Hc128Core::generate; a subset runs 2^16 (quick) / 2^20 (thorough) words; every triple of seed bits (W3, 2.7 M seeds) is compared for the first 4 blocks".into(),
+            rule: "seeds = Z, O, every single bit and every pair of bits of key/IV (W1, W2), walking zeros, byte probes, dense chained seeds (all distinct by construction); every seed is compared with the specification model for 2200 keystream words (> 2 table cycles) through next_u32 and for 8 blocks through Hc128Core::generate; a subset runs 2^21 (quick) / 2^24 (thorough) words; every triple of seed bits (W3, 2.7 M seeds) is compared for the first 4 blocks".into(),
         },
     }
 }
